@@ -68,6 +68,18 @@ def stores(n: ast.AST) -> tuple[set[str], set[str]]:
     return strong, weak
 
 
+def _new_helper_call(n: ast.AST) -> bool:
+    """Does the statement call a method of self that is not part of the pinned vocabulary (an extracted helper with unknown effects)?"""
+    from .vocabulary import PINNED_FUNCTIONS
+    if not OWNER[0]:
+        return False
+    for c in ast.walk(n):
+        if isinstance(c, ast.Call) and isinstance(c.func, ast.Attribute) and isinstance(c.func.value, ast.Name) and c.func.value.id == 'self':
+            if f'{OWNER[0]}.{c.func.attr}' not in PINNED_FUNCTIONS and c.func.attr.startswith('_') and not c.func.attr.startswith('__'):
+                return True
+    return False
+
+
 def _site(n: ast.AST) -> bool:
     return KEEP_CALL[0] is not None and any(isinstance(x, ast.Call) and KEEP_CALL[0](x) for x in ast.walk(n))
 
@@ -77,6 +89,7 @@ def _has_exit(n: ast.AST) -> bool:
 
 
 KEEP_EXITS = [True]
+OWNER = ['']  # '<module>:<class>' of the function being sliced
 KEEP_CALL = [None]  # predicate on ast.Call: statements containing such a call are kept (sites of interest)
 
 
@@ -97,6 +110,8 @@ def _slice_stmt(st: ast.stmt, need: set[str], scd: set[str]) -> tuple[ast.stmt |
         return st, need | uses(st)
     if isinstance(st, (ast.Break, ast.Continue)):
         return st, need
+    if isinstance(st, (ast.Assign, ast.AnnAssign, ast.AugAssign)) and _new_helper_call(st):
+        return st, need | uses(st)
     if isinstance(st, (ast.Assign, ast.AnnAssign, ast.AugAssign)):
         strong, weak = stores(st)
         if isinstance(st, ast.AnnAssign) and st.value is None:
@@ -121,6 +136,8 @@ def _slice_stmt(st: ast.stmt, need: set[str], scd: set[str]) -> tuple[ast.stmt |
         _strong, weak = stores(st)
         calls_self = any(isinstance(c, ast.Call) and isinstance(c.func, ast.Attribute) and isinstance(c.func.value, ast.Name) and
                          c.func.value.id == 'self' for c in ast.walk(st))
+        if _new_helper_call(st):
+            return st, need | uses(st)
         if weak & need or (calls_self and scd & need) or any(isinstance(x, (ast.Yield, ast.YieldFrom)) for x in ast.walk(st)) or _site(st):
             return st, need | uses(st)
         return None, need
@@ -164,11 +181,13 @@ def slice_function(fi: FuncInfo, want: set[str], self_calls_define: set[str] | N
     """
     KEEP_EXITS[0] = keep_exits
     KEEP_CALL[0] = keep_call
+    OWNER[0] = f'{fi.module}:{fi.cls}' if fi.cls else ''
     try:
         body, _need = _slice_body(list(fi.node.body), set(want), set(self_calls_define or ()))
     finally:
         KEEP_EXITS[0] = True
         KEEP_CALL[0] = None
+        OWNER[0] = ''
     node = copy.copy(fi.node)
     node.body = body or [ast.copy_location(ast.Pass(), fi.node)]
     return FuncInfo(fi.module, fi.qualname + '::' + name, node, fi.cls, fi.parent)
